@@ -14,6 +14,16 @@ for d in sorted(os.listdir('/verif/seeded')):
         m = json.load(open(mp))
         used.setdefault(m['property'], []).append(f"- {m['change']} (needed: {m['needs_to_manifest']})")
 EXTRA = {
+ '5': """Earlier rounds have used up the obvious single-site slips, many cross-call state bugs and several feature combinations
+ (see the list below). This time look for something that list does NOT touch. Directions that have produced good changes:
+  * an API entry point or accessor of this crate that the property covers but the used ideas never went through
+    (look at the public API in src/lib.rs, src/read.rs, src/read/stream.rs, src/write.rs, src/types.rs, src/unstable.rs);
+  * an interaction with a neighbouring entry, a previous call, a re-opened archive or a second handle;
+  * a boundary that depends on TWO quantities at once (a length plus an offset, a count plus a comment, a size plus a flag);
+  * behaviour under an unusual but legitimate environment (short reads/writes, Interrupted, seeks that land elsewhere, a sink
+    that is not at position 0 when the writer starts, a reader positioned mid-stream);
+  * a value that is legal but rare (all-zero or all-one fields, maximal lengths, empty names, second 60, mode 0).
+ The change should look like something a maintainer could plausibly write (a refactoring, an optimisation, a 'robustness' tweak).""",
  '4': """Earlier changes for this property were mostly single-site slips. This time aim for one of:
   * state that survives across calls or across entries (a field not reset, a cache, a flag set on one path and read on another);
   * a combination of two or three options / features that each work alone;
